@@ -402,7 +402,11 @@ def _expected_branches():
     return out
 
 
-EXPECTED_BRANCHES = _expected_branches() + STRATA
+EXPECTED_BRANCHES = _expected_branches() + STRATA + [
+    'history/shared-grid/single-point-axis', 'history/shared-grid/regular',
+    'history/shared-partition', 'history/shared-weighting/tensor',
+    'history/shared-weighting/pspace', 'history/requery-after-other-space',
+    'stratum/single-point-axis/U', 'stratum/single-point-axis/G']
 
 def is_exact(d):
     """All weights dyadic with few bits: float arithmetic of inner products is exact."""
@@ -980,16 +984,20 @@ def key_of(d, what):
     return '{} :: space={}'.format(what, '/'.join(str(t) for t in s))
 
 
-def run_case(ctx, d, vseed, lines, recs, collect=True):
-    """Evaluate one space description on the real code: oracle checks + protocol lines."""
+def run_case(ctx, d, vseed, lines, recs, collect=True, space=None, hist=None):
+    """Evaluate one space description on the real code: oracle checks + protocol lines.
+    `space`: an already built space that `d` describes (history stream: built from objects
+    shared with other spaces); `hist`: label + seed of the history scenario (for key/replay)."""
     rng = random.Random(vseed)
     rep = {'desc': jsonable(d), 'vseed': vseed}
+    if hist is not None:
+        rep['hist'] = hist
     problems = []
 
     def bad(what, detail):
         problems.append((what, detail))
 
-    o = outcome(lambda: build(d))
+    o = outcome(lambda: build(d)) if space is None else ('ok', space)
     if o[0] != 'ok':
         bad('space construction failed', '{} {}'.format(*o))
         return finish(ctx, d, rep, problems, False)
@@ -1222,8 +1230,13 @@ def finish(ctx, d, rep, problems, nontrivial):
     ctx.case(sig_of(d) if nontrivial else None,
              sample={'space': wire(d)[:160]} if flat_size(d) <= 8 else None)
     ctx.hit('space/' + d[0])
+    if d[0] in ('U', 'G') and 1 in leaf_shape(d):
+        ctx.hit('stratum/single-point-axis/' + d[0])
     for what, detail in problems:
-        ctx.violation(key_of(d, what), detail[:500], rep)
+        key = key_of(d, what)
+        if 'hist' in rep:
+            key += ' :: history=' + rep['hist']['scenario']
+        ctx.violation(key, detail[:500], rep)
     return problems
 
 
@@ -1379,6 +1392,178 @@ def custom_cases(ctx):
             ctx.violation('custom {} :: delegation'.format(name), pr[:300], {'custom': name})
 
 
+
+# ---------------------------------------------------------------------------
+# HISTORY stream: spaces built from SHARED objects (one grid under several partitions, one
+# partition under several spaces, one weighting object under several spaces), queried
+# interleaved.  Every answer goes through the same oracle and model comparison as a freshly
+# built space (run_case with the shared space injected) and is compared with the same query on
+# a freshly built equal space.
+
+HIST_STRATA = ['history/shared-grid/single-point-axis', 'history/shared-grid/regular',
+               'history/shared-partition', 'history/shared-weighting/tensor',
+               'history/shared-weighting/pspace', 'history/requery-after-other-space',
+               'stratum/single-point-axis/U', 'stratum/single-point-axis/G']
+
+
+def fresh_compare(ctx, d, space, hist, vseed):
+    """Same queries on the shared-object space and on a freshly built equal space."""
+    problems = []
+    o = outcome(lambda: build(d))
+    if o[0] != 'ok':
+        return [('fresh construction failed', str(o)[:160])]
+    fresh = o[1]
+    rng = random.Random(vseed)
+    for name, f in (('cell_volume', lambda sp: float(sp.cell_volume)),
+                    ('cell_sides', lambda sp: [float(v) for v in sp.cell_sides]),
+                    ('weighting const', lambda sp: float(sp.weighting.const)),
+                    ('exponent', lambda sp: float(sp.exponent))):
+        a, b = outcome(lambda: f(space)), outcome(lambda: f(fresh))
+        if a[0] == 'ok' and b[0] == 'ok' and a[1] != b[1]:
+            problems.append(('history changes ' + name,
+                             'shared objects: {} fresh space: {}'.format(a[1], b[1])))
+    try:
+        x1, X = make_elem(d, space, random.Random(vseed), 'rand')
+        y1, Y = make_elem(d, space, random.Random(vseed + 1), 'rand')
+        x2, _ = make_elem(d, fresh, random.Random(vseed), 'rand')
+        y2, _ = make_elem(d, fresh, random.Random(vseed + 1), 'rand')
+    except Exception as e:  # noqa
+        return problems + [('element creation failed', '{}: {}'.format(type(e).__name__, e))]
+    qs = [('norm(x)', lambda x, y, sp: x.norm()), ('dist(x,y)', lambda x, y, sp: x.dist(y)),
+          ('one().norm()', lambda x, y, sp: sp.one().norm())]
+    if has_inner(d):
+        qs += [('inner(x,y)', lambda x, y, sp: complex(x.inner(y))),
+               ('inner(1,1)', lambda x, y, sp: complex(sp.one().inner(sp.one())))]
+    for name, f in qs:
+        a = outcome(lambda: f(x1, y1, space))
+        b = outcome(lambda: f(x2, y2, fresh))
+        if a[0] != b[0] or (a[0] == 'ok' and abs(a[1] - b[1]) > 1e-13 * max(abs(b[1]), 1e-300)):
+            problems.append(('history changes ' + name,
+                             'shared objects: {} fresh space: {}'.format(a[1], b[1])))
+    return problems
+
+
+def history_scenarios(ctx, hseed):
+    """Yield (scenario name, [(description, space built from shared objects)])."""
+    import odl
+    from odl.space.npy_tensors import (NumpyTensorSpaceArrayWeighting,
+                                       NumpyTensorSpaceConstWeighting)
+    from odl.space.pspace import ProductSpaceArrayWeighting
+    rng = random.Random(hseed)
+
+    # --- one RectGrid under several partitions with different min/max
+    for single in (True, True, False):
+        nd = rng.choice([2, 2, 3])
+        coords = []
+        for ax in range(nd):
+            n = rng.choice([2, 3, 5])
+            h = rng.choice([0.5, 0.25, 1.0])
+            g0 = rng.choice([0.0, -1.0, 0.5])
+            coords.append([g0 + i * h for i in range(n)])
+        if single:
+            for ax in rng.sample(range(nd), rng.choice([1, 1, 2]) if nd > 2 else 1):
+                coords[ax] = [rng.choice([0.0, 0.5, -1.0])]
+        grid = odl.RectGrid(*[np.asarray(cv, dtype=float) for cv in coords])
+        items = []
+        for k in range(3):
+            mins, maxs = [], []
+            for cv in coords:
+                h = (cv[1] - cv[0]) if len(cv) > 1 else 1.0
+                ext = rng.choice([0.0, 0.25, 0.5, 1.0, 2.0]) if len(cv) > 1 else \
+                    [0.5, 2.0, 1.0][k] * rng.choice([1.0, 0.5])
+                mins.append(cv[0] - ext * h)
+                maxs.append(cv[-1] + rng.choice([0.0, 0.25, 0.5, 1.0]) * h if len(cv) > 1
+                            else cv[0] + ext * h)
+            p = rng.choice([2, 2, 1, 3])
+            dt = rng.choice(['float64', 'float64', 'complex128', 'float32'])
+            d = ('G', coords, mins, maxs, dt, None, p)
+            o = outcome(lambda: odl.uniform_discr_frompartition(
+                odl.uniform_partition_fromgrid(grid, min_pt=list(mins), max_pt=list(maxs)),
+                dtype=dt, **_kw(None, p, dt)))
+            items.append((d, o))
+        yield ('shared-grid/' + ('single-point-axis' if single else 'regular'), items)
+
+    # --- one partition under several spaces (weighting / exponent / dtype differ)
+    for rep in range(2):
+        n0, n1 = rng.choice([2, 3, 4]), rng.choice([1, 2, 3])
+        coords = [[0.0 + i * 0.5 for i in range(n0)], [1.0 + i * 0.25 for i in range(n1)]]
+        mins = [coords[0][0] - rng.choice([0.0, 0.25]), coords[1][0] - rng.choice([0.125, 0.5])]
+        maxs = [coords[0][-1] + rng.choice([0.25, 0.5]), coords[1][-1] + rng.choice([0.0, 0.125, 1.0])]
+        part = odl.RectPartition(odl.IntervalProd(mins, maxs),
+                                 odl.RectGrid(*[np.asarray(cv) for cv in coords]))
+        items = []
+        for wk, p, dt in [('def', 2, 'float64'), ('const', 1, 'float64'), ('def', 3, 'complex128'),
+                          ('array', 2, 'float32'), ('def', INF, 'float64'), ('def', 2, 'int64')]:
+            wt = None if wk == 'def' else mk_wt(rng, wk, (n0, n1), dt)
+            d = ('G', coords, mins, maxs, dt, wt, p)
+            o = outcome(lambda: odl.uniform_discr_frompartition(part, dtype=dt, **_kw(wt, p, dt)))
+            items.append((d, o))
+        yield ('shared-partition', items)
+
+    # --- one weighting OBJECT under several tensor / discretized spaces
+    shape = (3, 2)
+    warr = np.array(dy_weights(rng, 6)).reshape(shape)
+    for p in [2, 1.5]:
+        wobj = NumpyTensorSpaceArrayWeighting(warr, exponent=p)
+        cobj = NumpyTensorSpaceConstWeighting(rng.choice([0.5, 2.0]), exponent=p)
+        items = []
+        for dt in ['float64', 'complex128']:
+            d = ('T', shape, dt, 'C', ('a', warr.tolist()), p)
+            items.append((d, outcome(lambda: odl.tensor_space(shape, dtype=dt, weighting=wobj))))
+            d = ('T', shape, dt, 'C', ('c', cobj.const), p)
+            items.append((d, outcome(lambda: odl.tensor_space(shape, dtype=dt, weighting=cobj))))
+        specs = [(0.0, 1.0, 3, 1, 1), (0.0, 0.5, 2, 0, 0)]
+        d = ('U', specs, 'float64', 'C', ('a', warr.tolist()), p)
+        items.append((d, outcome(lambda: odl.uniform_discr(
+            [0.0, 0.0], [1.0, 0.5], shape, nodes_on_bdry=[(True, True), (False, False)],
+            weighting=wobj, exponent=p))))
+        yield ('shared-weighting/tensor', items)
+
+    # --- one product-space weighting object under two product spaces
+    pw_ = [2.0, 0.5]
+    for p in [2, 1]:
+        pobj = ProductSpaceArrayWeighting(np.array(pw_), exponent=p)
+        items = []
+        for comps in ([('T', (2,), 'float64', 'C', None, p), ('T', (3,), 'float64', 'C', ('c', 2.0), p)],
+                      [('T', (1,), 'float64', 'C', None, p),
+                       ('U', [(0.0, 1.0, 3, 1, 1)], 'float64', 'C', None, p)]):
+            d = ('P', comps, ('a', pw_), p)
+            items.append((d, outcome(lambda: odl.ProductSpace(*[build(c) for c in comps],
+                                                               weighting=pobj))))
+        yield ('shared-weighting/pspace', items)
+
+
+def run_history(ctx, lines, recs, hseed=None, collect=True):
+    hseed = ctx.rng.getrandbits(32) if hseed is None else hseed
+    allp = []
+    for name, items in history_scenarios(ctx, hseed):
+        hist = {'scenario': name, 'seed': hseed}
+        built = []
+        for d, o in items:
+            if o[0] != 'ok':
+                ctx.violation('space construction failed :: history=' + name, str(o)[:300],
+                              {'hist': hist, 'desc': jsonable(d)})
+                allp.append(('space construction failed', str(o)[:200]))
+                continue
+            built.append((d, o[1]))
+        # interleaved queries: A, B, C, ... then A, B, C again (each full set of inner / norm /
+        # dist / one / cell volume queries), then the comparison with fresh equal spaces
+        for rnd in range(2):
+            for k, (d, sp) in enumerate(built):
+                vs = (hseed + 17 * k + 1000 * rnd) & 0xffffffff
+                allp += run_case(ctx, d, vs, lines, recs, collect=collect, space=sp, hist=hist)
+                if rnd == 1:
+                    ctx.hit('history/requery-after-other-space')
+                if collect:
+                    ctx.hit('history/' + name)
+        for k, (d, sp) in enumerate(built):
+            pr = fresh_compare(ctx, d, sp, hist, hseed + k)
+            for what, detail in pr:
+                ctx.violation(key_of(d, what) + ' :: history=' + name, detail[:400],
+                              {'hist': hist, 'desc': jsonable(d)})
+            allp += pr
+    return allp
+
 # ---------------------------------------------------------------------------
 
 def threshold():
@@ -1397,6 +1582,8 @@ def run(ctx):
     lines, recs = [], []
     for d, vseed in all_cases(ctx):
         run_case(ctx, d, vseed, lines, recs)
+    for rep in range(1 if ctx.quick else 6):
+        run_history(ctx, lines, recs)
     custom_cases(ctx)
     outs = core.run_driver('C02', lines)
     compare(ctx, recs, outs)
@@ -1408,6 +1595,8 @@ def search(ctx, broken):
     saved = ctx.tier
     ctx.tier = 'thorough'
     try:
+        for rep in range(4):
+            run_history(ctx, [], [], collect=False)
         for d, vseed in all_cases(ctx):
             for rep in range(2):
                 run_case(ctx, d, vseed + rep, [], [], collect=False)
@@ -1425,6 +1614,11 @@ def replay(ctx, case):
         del ctx.violations[before:]
         bad = [v for v in new if v['replay'].get('custom') == case['custom']]
         return bad[0]['what'] if bad else None
+    if 'hist' in case:
+        before = len(ctx.violations)
+        problems = run_history(ctx, [], [], hseed=case['hist']['seed'], collect=False)
+        del ctx.violations[before:]
+        return '; '.join('{}: {}'.format(*p) for p in problems[:5]) if problems else None
     d = unjson(case['desc'])
     before = len(ctx.violations)
     problems = run_case(ctx, d, case['vseed'], [], [], collect=False)
